@@ -7,6 +7,7 @@
 #include <ompl/util/Console.h>
 #include <ompl/base/spaces/RealVectorStateSpace.h>
 #include <ompl/base/spaces/SE2StateSpace.h>
+#include <ompl/base/spaces/DiscreteStateSpace.h>
 #include <ompl/base/terminationconditions/IterationTerminationCondition.h>
 #include <ompl/geometric/SimpleSetup.h>
 #include <ompl/geometric/planners/rrt/RRT.h>
@@ -63,15 +64,34 @@ int main()
         }
         else if (op == "PLAN")
         {
-            std::string name; unsigned long seed; unsigned iters; in >> name >> seed >> iters;
+            std::string name, world; unsigned long seed; unsigned iters; in >> name >> seed >> iters; in >> world;
             ompl::RNG::setSeed(seed);
-            auto space = std::make_shared<ob::RealVectorStateSpace>(2); space->setBounds(0, 1);
+            const bool grid = world == "grid";   // a 100 x 100 lattice (two discrete components): distances are integers, ties abound
+            ob::StateSpacePtr space;
+            if (grid)
+            {
+                auto cs = std::make_shared<ob::CompoundStateSpace>();
+                cs->addSubspace(std::make_shared<ob::DiscreteStateSpace>(0, 99), 1.0); cs->addSubspace(std::make_shared<ob::DiscreteStateSpace>(0, 99), 1.0); cs->lock();
+                space = cs;
+            }
+            else { auto rv = std::make_shared<ob::RealVectorStateSpace>(2); rv->setBounds(0, 1); space = rv; }
             og::SimpleSetup ss(space);
-            ss.setStateValidityChecker([](const ob::State *s) {
-                const double *v = s->as<ob::RealVectorStateSpace::StateType>()->values;
-                double dx = v[0] - 0.5, dy = v[1] - 0.5; return dx * dx + dy * dy > 0.04; });
-            ob::ScopedState<> a(space), b(space); a[0] = 0.1; a[1] = 0.1; b[0] = 0.9; b[1] = 0.9;
-            ss.setStartAndGoalStates(a, b, 0.02);
+            if (grid)
+                ss.setStateValidityChecker([](const ob::State *s) {
+                    const auto *c = s->as<ob::CompoundState>(); int x = c->as<ob::DiscreteStateSpace::StateType>(0)->value, y = c->as<ob::DiscreteStateSpace::StateType>(1)->value;
+                    return !((x >= 40 && x < 60 && y >= 20 && y < 80) || (y >= 45 && y < 55 && x >= 10 && x < 40)); });
+            else
+                ss.setStateValidityChecker([](const ob::State *s) {
+                    const double *v = s->as<ob::RealVectorStateSpace::StateType>()->values;
+                    double dx = v[0] - 0.5, dy = v[1] - 0.5; return dx * dx + dy * dy > 0.04; });
+            ob::ScopedState<> a(space), b(space);
+            if (grid)
+            {
+                a->as<ob::CompoundState>()->as<ob::DiscreteStateSpace::StateType>(0)->value = 5; a->as<ob::CompoundState>()->as<ob::DiscreteStateSpace::StateType>(1)->value = 5;
+                b->as<ob::CompoundState>()->as<ob::DiscreteStateSpace::StateType>(0)->value = 92; b->as<ob::CompoundState>()->as<ob::DiscreteStateSpace::StateType>(1)->value = 90;
+                ss.setStartAndGoalStates(a, b, 0.5);
+            }
+            else { a[0] = 0.1; a[1] = 0.1; b[0] = 0.9; b[1] = 0.9; ss.setStartAndGoalStates(a, b, 0.02); }
             auto si = ss.getSpaceInformation();
             ob::PlannerPtr p;
             if (name == "RRT") p = mk<og::RRT>(si); else if (name == "RRTConnect") p = mk<og::RRTConnect>(si);
@@ -83,6 +103,7 @@ int main()
             else if (name == "BITstar") p = mk<og::BITstar>(si); else if (name == "AITstar") p = mk<og::AITstar>(si);
             else if (name == "SST") p = mk<og::SST>(si); else if (name == "PDST") p = mk<og::PDST>(si);
             else p = mk<og::STRIDE>(si);
+            if (grid && p->params().hasParam("range")) p->params().setParam("range", "4");   // small steps: trees of hundreds of motions
             ss.setPlanner(p);
             ob::IterationTerminationCondition itc(iters);
             ob::PlannerStatus st = ss.solve(ob::PlannerTerminationCondition(itc));
@@ -91,7 +112,12 @@ int main()
             {
                 auto &path = ss.getSolutionPath(); n = path.getStateCount();
                 for (std::size_t i = 0; i < n; ++i)
-                    for (int k = 0; k < 2; ++k) { h ^= bits(path.getState(i)->as<ob::RealVectorStateSpace::StateType>()->values[k]); h *= 1099511628211ULL; }
+                    for (int k = 0; k < 2; ++k)
+                    {
+                        h ^= grid ? (unsigned long long)path.getState(i)->as<ob::CompoundState>()->as<ob::DiscreteStateSpace::StateType>(k)->value
+                                  : bits(path.getState(i)->as<ob::RealVectorStateSpace::StateType>()->values[k]);
+                        h *= 1099511628211ULL;
+                    }
             }
             std::printf("plan %s %d %zu %016llx\n", name.c_str(), (int)(ob::PlannerStatus::StatusType)st, n, h);
         }
